@@ -146,6 +146,15 @@ pub fn distance<IntT: for<'a> UInt<'a>>(
     let mask_ambig = false;
     let ignore_const_gaps = false;
     let filter_ambig_as_missing = false;
+    // Frequency filter first, so the k-mers it removes are not counted as constant sites
+    apply_filters(
+        ska_array,
+        min_freq,
+        filter_ambig_as_missing,
+        &FilterType::NoFilter,
+        mask_ambig,
+        ignore_const_gaps,
+    );
     let constant = apply_filters(
         ska_array,
         min_freq,
